@@ -9,12 +9,12 @@ trap 'git -C /repo worktree remove --force $W 2>/dev/null; rm -rf $W' EXIT INT T
 cd $W
 cp "$D/demo$N.rs" tests/seed_demo.rs
 export CARGO_NET_OFFLINE=true CARGO_TARGET_DIR=/tmp/vs-target
-clean_demo=$(cargo test --offline --test seed_demo 2>&1 | grep -E "^test result" | head -1)
+clean_demo=$(cargo test --offline --test seed_demo 2>&1 | grep -E "^test result:" | head -1)
 git apply "$D/patch$N.diff" || { echo "RESULT patch-does-not-apply"; exit 1; }
 b1=$(cargo build --offline 2>&1 | tail -1)
 b2=$(cargo build --offline --features verif-hooks 2>&1 | tail -1)
 mv tests/seed_demo.rs /tmp/vs-demo.$$.rs
-suite=$(cargo test --offline 2>&1 | grep -E "^test result" | awk '{p+=$4; f+=$6} END {print p" passed "f" failed"}')
+suite=$(cargo test --offline 2>&1 | grep -E "^test result:" | awk '{p+=$4; f+=$6} END {print p" passed "f" failed"}')
 mv /tmp/vs-demo.$$.rs tests/seed_demo.rs
-mut_demo=$(cargo test --offline --test seed_demo 2>&1 | grep -E "^test result" | head -1)
+mut_demo=$(cargo test --offline --test seed_demo 2>&1 | grep -E "^test result:" | head -1)
 echo "RESULT clean_demo=[$clean_demo] build=[$b1|$b2] suite=[$suite] mutated_demo=[$mut_demo]"
